@@ -425,7 +425,7 @@ bloc::Value * FilePlugin::executeMethod(
     if (l > 0)
     {
       bloc::Integer n = l;
-      str->reserve(n);
+      str->reserve(n > BLOC_FILE_BUFSZ ? BLOC_FILE_BUFSZ : n);
       char buf[BLOC_FILE_BUFSZ];
       while (n > 0)
       {
@@ -544,7 +544,7 @@ bloc::Value * FilePlugin::executeMethod(
     if (l > 0)
     {
       bloc::Integer n = l;
-      raw->reserve(n);
+      raw->reserve(n > BLOC_FILE_BUFSZ ? BLOC_FILE_BUFSZ : n);
       char buf[BLOC_FILE_BUFSZ];
       while (n > 0)
       {
